@@ -121,8 +121,10 @@ Qed.
 Lemma continue_loop_inv : forall r fuel s s' o x, Inv s -> _continue_backlog_loop fuel s r = (s', o, x) -> Inv s'.
 Proof.
   intros r. induction fuel as [|f IH]; intros s s' o x HI H; cbn [_continue_backlog_loop] in H; [invpairs; exact HI|].
-  destruct (exchanges s); [|invpairs; exact HI]. destruct (has_exchange r l); [invpairs; exact HI|].
-  destruct (alookup Z.eqb r (backlogs s)) as [[|[w m] rest]|]; try (invpairs; try exact HI; (eapply Inv_frame; [| |exact HI]; reflexivity); fail).
+  destruct (exchanges s); [|invpairs; exact HI].
+  destruct (alookup Z.eqb r (backlogs s)) as [bl|]; [|invpairs; exact HI].
+  destruct (has_exchange r l); [invpairs; exact HI|].
+  destruct bl as [|[w m] rest]; [invpairs; eapply Inv_frame; [| |exact HI]; reflexivity|].
   destruct (_send_initially _ r w (Some m)) as [s1 o1] eqn:S. apply send_initially_inv in S.
   2: { eapply Inv_frame; [| |exact HI]; reflexivity. }
   destruct (_continue_backlog_loop f s1 r) as [[s2 o2] x2] eqn:L. apply IH in L; [|exact S]. invpairs. exact L.
@@ -173,9 +175,7 @@ Proof.
   intros s r mid s' o HI H. unfold _retransmit in H. destruct (exchanges s); [|invpairs; exact HI].
   destruct (alookup rm_eqb (r, mid) l); [|invpairs; exact HI].
   destruct (ex_counter e <? 4).
-  - destruct (_send_via_transport _ r (ex_msg e)) as [s2 o2] eqn:S. apply send_via_transport_inv in S.
-    2: { eapply Inv_frame; [| |exact HI]; reflexivity. }
-    destruct (exchanges s2); invpairs; [eapply Inv_frame; [| |exact S]; reflexivity|exact S].
+  - eapply send_via_transport_inv; [|exact H]. eapply Inv_frame; [| |exact HI]; reflexivity.
   - destruct (amem Z.eqb r _); [|invpairs; eapply Inv_frame; [| |exact HI]; reflexivity].
     eapply tm_dispatch_error_inv; [|exact H]. eapply Inv_frame; [| |exact HI]; reflexivity.
 Qed.
